@@ -197,6 +197,30 @@ func pairStates() []pairState {
 					pickOp("bound-k1", "bound", "k1", "L", false, ""),
 				}
 			}},
+		// the balancer was selected by name only (first resolver update without a configuration); a
+		// later update brings one while calls are being placed and completed
+		{name: "late-config", cfg: poolCfg{Name: "pairs late-config", NilCfg: true, Setup: append(readyPool(1), "pick(plain,,L,g)")},
+			ops: func(w *poolWorld) []pairOp {
+				return []pairOp{
+					resolveOp("resolve-a2", "a2"),
+					pickOp("plainL", "plain", "", "L", false, "ok"),
+					pickOp("bindL", "bind", "", "L", false, "ok:k1"),
+					doneOp("c0-ok", 0, "ok"),
+					stateOp("sc0-IDLE", 0, connectivity.Idle),
+				}
+			}},
+		// two BIND calls open on different channels whose replies name the same key
+		{name: "two-binds", cfg: poolCfg{Name: "pairs two-binds pool=2", Min: 2, Max: 2, WM: 100,
+			Setup: append(readyPool(2), "pick(bind,,L,g)", "pick(bind,,L,g)")},
+			ops: func(w *poolWorld) []pairOp {
+				return []pairOp{
+					doneOp("bindA-ok:k1", 0, "ok:k1"),
+					doneOp("bindB-ok:k1", 1, "ok:k1"),
+					pickOp("bound-k1", "bound", "k1", "L", false, "ok"),
+					pickOp("bound-k1-again", "bound", "k1", "L", false, "ok"),
+					pickOp("plain", "plain", "", "L", false, "ok"),
+				}
+			}},
 		// round-robin, both channels READY, a superseded picker still in use: BIND slots are handed out
 		// by the balancer, so overlapping BINDs (through whichever picker) must land on distinct channels
 		{name: "rr-ready", placeProp: "C09", cfg: poolCfg{Name: "pairs rr-ready pool=2", Min: 2, Max: 2, WM: 100, RR: true, Setup: readyPool(2)},
@@ -414,9 +438,27 @@ func runTuple(s *vsched.Sched, st pairState, idx []int, concurrent bool) *pairRu
 	var ths []*vsched.Thread
 	var names []string
 	resolved := ""
+	// bindings observed whenever an operation of the tuple returns (and at the end): a key that is
+	// bound must stay on its channel unless the tuple unbinds it (C01: "a BIND for an already-bound
+	// key does not move it"); the cooperative scheduler runs one thread at a time, so the harness may
+	// read the map directly
+	var snaps []map[string]*subConnRef
+	snap := func() {
+		m := map[string]*subConnRef{}
+		for k, sc := range w.gb.affinityMap {
+			if ref := w.gb.scRefs[sc]; ref != nil {
+				m[k] = ref
+			}
+		}
+		snaps = append(snaps, m)
+	}
+	unbinds := false
 	for _, i := range idx {
 		o := ops[i]
-		ths = append(ths, s.Go(o.name, func() { o.fn(w, &r.results) }))
+		if strings.HasPrefix(o.name, "unbind") {
+			unbinds = true
+		}
+		ths = append(ths, s.Go(o.name, func() { o.fn(w, &r.results); snap() }))
 		names = append(names, o.name)
 		if o.name == "resolve-a2" {
 			resolved = "a2"
@@ -450,6 +492,24 @@ func runTuple(s *vsched.Sched, st pairState, idx []int, concurrent bool) *pairRu
 		}
 		open += w.pairPlaced - w.pairCompleted
 		r.bad, r.keys = w.invariants(open, resolved, blocked)
+		snap()
+		if !unbinds {
+			home := map[string]*subConnRef{}
+			for _, m := range snaps {
+				for k, ref := range m {
+					if h, ok := home[k]; ok && h != ref {
+						r.bad["C01"] = append(r.bad["C01"], fmt.Sprintf("bound key %s moved from %v to %v without an UNBIND", k, h.subConn, ref.subConn))
+					}
+					if _, ok := home[k]; !ok {
+						home[k] = ref
+					}
+				}
+			}
+			sort.Strings(r.bad["C01"])
+			if len(r.bad["C01"]) == 0 {
+				delete(r.bad, "C01")
+			}
+		}
 		var cnt []int
 		for _, ref := range w.gb.scRefs {
 			cnt = append(cnt, int(ref.streamsCnt))
